@@ -244,6 +244,13 @@ func (x *Exec) iteV(c Term, a, b Value, hint string) Value {
 		if vSame(a, b) {
 			return a
 		}
+		if _, isFn := a.(FuncV); isFn {
+			if _, isFn2 := b.(FuncV); isFn2 {
+				// a variable holding one of two different functions (stat := os.Lstat; if .. { stat = os.Stat }): an opaque
+				// function value; a call through it is a call of an unknown function (results unconstrained)
+				return x.vc.fresh("funcval", sortInt)
+			}
+		}
 		_ = av
 		panic(fmt.Sprintf("cannot merge non-symbolic values for %s (%T vs %T)", hint, a, b))
 	}
